@@ -28,19 +28,48 @@ def closeReasonMax : Nat := Gen.EChannelCloseReasonMAX.toNat
 def maxChSequence : Nat := Gen.UTCP_MAX_CHSEQUENCE.toNat
 def maxPacketBits : Nat := Gen.UTCP_MAX_PACKET.toNat * 8
 
+/-! The header is written and read in eight stages; each stage has its own writer and reader so that the
+round-trip proof composes stage by stage. -/
+
+def writeCtl (bOpen bClose : Bool) (reason : Nat) : Bits :=
+  let ctl := bOpen || bClose
+  [ctl] ++ (if ctl then [bOpen, bClose] ++ (if bClose then writeInt reason closeReasonMax else []) else [])
+
+def readCtl : Rd (Bool × Bool × Nat) := do
+  let ctl ← readBit
+  let bOpen ← if ctl then readBit else pure false
+  let bClose ← if ctl then readBit else pure false
+  let reason ← if bClose then readInt closeReasonMax else pure 0
+  pure (bOpen, bClose, reason)
+
+def writeSeq (reliable : Bool) (chSeq : Int) : Bits :=
+  if reliable then writeIntWrapped (chSeq % 4294967296).toNat maxChSequence else []
+
+def readSeq (reliable : Bool) : Rd Nat := if reliable then readInt maxChSequence else pure 0
+
+def writePartialFlags (partial_ pinit pfinal : Bool) : Bits := if partial_ then [pinit, pfinal] else []
+
+def readPartialFlags (partial_ : Bool) : Rd (Bool × Bool) :=
+  if partial_ then (do let a ← readBit; let b ← readBit; pure (a, b)) else pure (false, false)
+
+def writeName (has : Bool) (name : Nat) : Bits := if has then [true] ++ writeIntPacked name else []
+
+def readName (has : Bool) : Rd Nat :=
+  if has then (do
+    let hard ← readBit
+    if !hard then Rd.failHere else readIntPacked) else pure 0
+
 /-- `utcp_bunch_write_header`; `none` when the serializer refuses (close reason out of range). -/
 def encodeBunchHeader (b : Bunch) : Option Bits :=
-  let ctl := b.bOpen || b.bClose
   if b.bClose && !(decide (b.closeReason < closeReasonMax)) then none else
   some (
-    [ctl]
-    ++ (if ctl then [b.bOpen, b.bClose] ++ (if b.bClose then writeInt b.closeReason closeReasonMax else []) else [])
+    writeCtl b.bOpen b.bClose b.closeReason
     ++ [b.bPaused, b.bReliable]
     ++ writeIntPacked b.chIndex
     ++ [b.bExports, b.bGuids, b.bPartial]
-    ++ (if b.bReliable then writeIntWrapped (b.chSeq % 4294967296).toNat maxChSequence else [])
-    ++ (if b.bPartial then [b.bPartialInitial, b.bPartialFinal] else [])
-    ++ (if b.bReliable || b.bOpen then [true] ++ writeIntPacked b.nameIndex else [])
+    ++ writeSeq b.bReliable b.chSeq
+    ++ writePartialFlags b.bPartial b.bPartialInitial b.bPartialFinal
+    ++ writeName (b.bReliable || b.bOpen) b.nameIndex
     ++ writeIntWrapped b.data.length maxPacketBits)
 
 /-- header followed by payload bits: what `SendRawBunch` appends to the send buffer -/
@@ -51,22 +80,16 @@ def encodeBunch (b : Bunch) : Option Bits :=
 
 /-- `utcp_bunch_read` -/
 def decodeBunch : Rd Bunch := do
-  let ctl ← readBit
-  let bOpen ← if ctl then readBit else pure false
-  let bClose ← if ctl then readBit else pure false
-  let reason ← if bClose then readInt closeReasonMax else pure 0
+  let (bOpen, bClose, reason) ← readCtl
   let paused ← readBit
   let reliable ← readBit
   let ch ← readIntPacked
   let exports ← readBit
   let guids ← readBit
   let partial_ ← readBit
-  let chSeq ← if reliable then readInt maxChSequence else pure 0
-  let pinit ← if partial_ then readBit else pure false
-  let pfinal ← if partial_ then readBit else pure false
-  let name ← if reliable || bOpen then (do
-      let hard ← readBit
-      if !hard then Rd.failHere else readIntPacked) else pure 0
+  let chSeq ← readSeq reliable
+  let (pinit, pfinal) ← readPartialFlags partial_
+  let name ← readName (reliable || bOpen)
   let nbits ← readInt maxPacketBits
   let data ← readBits nbits
   pure { chIndex := ch % 65536, bOpen := bOpen, bClose := bClose, bPaused := paused, bReliable := reliable,
